@@ -389,6 +389,33 @@ def run(ctx):
             shutil.rmtree(root, ignore_errors=True)
     generics_zoo()
 
+    # (iii-e) generating into an output directory that already holds the (larger) output of an earlier version of the model
+    def regenerate_smaller():
+        big = ("Sample: !record\n  fields:\n" + "".join("    f%d: %s\n" % (i, t) for i, t in enumerate(["int", "string", "float[]", "int*", "string->double", "[int, string]", "complexfloat?", "date", "uint64[3]", "float[2,2]"] * 3)) +
+               "Extra: !enum\n  values: [a, b, c, d, e]\nOther: !record\n  fields:\n    s: Sample\n    e: Extra\n"
+               "RegenProto: !protocol\n  sequence:\n    first: Sample\n    more: !stream\n      items: Other\n    last: Extra\n")
+        small = "Sample: !record\n  fields:\n    f0: int\nRegenProto: !protocol\n  sequence:\n    first: Sample\n"
+        root = os.path.join(ctx.workdir, "cases", "regen_smaller")
+        shutil.rmtree(root, ignore_errors=True)
+        outs = ("cpp:\n  sourcesOutputDir: ../out/cpp\n  generateHDF5: false\n  generateCMakeLists: false\n  overrideArrayHeader: %s\npython:\n  outputDir: ../out/python\n"
+                "matlab:\n  outputDir: ../out/matlab\njson:\n  outputDir: ../out/json\n" % cxx.ARRAY_HEADER)
+        common.write_tree(root, {"pkg/_package.yml": "namespace: Regen\n" + outs, "pkg/model.yml": big})
+        pg = cli.run_cli("generate", os.path.join(root, "pkg"), home, [])
+        ctx.ev()
+        if pg.rc != 0:
+            ctx.violation("generate-failed:regen-smaller-first", "first generation of the larger model fails: %s" % cli.clean(pg.stderr)[:300], {"case_dir": root, "proc": pg.brief()})
+            return
+        with open(os.path.join(root, "pkg/model.yml"), "w") as f:
+            f.write(small)
+        res = check_outputs(ctx, root, os.path.join(root, "pkg"), home, "a smaller version of the model generated over the output of the larger one", "regen-smaller", full_cpp=True)
+        ctx.case(("regen-smaller",))
+        ctx.count("regen-smaller.%s" % res)
+        if res == "rejected":
+            ctx.violation("valid-model-rejected:regen-smaller", "the reduced model is rejected", {"case_dir": root})
+        elif res != "bad":
+            shutil.rmtree(root, ignore_errors=True)
+    regenerate_smaller()
+
     # (iv) init scaffolds
     def init(nm):
         root = os.path.join(ctx.workdir, "cases", "init_%s" % nm[:30])
